@@ -3,6 +3,7 @@ and the quoted path contains a dot; the resolver never emits a dot segment."""
 from __future__ import annotations
 
 from ..interp import alternatives, analyze, truth
+from ..strtpl import flatten
 from ..kinds import DEC, RAW, UNK
 from ..model import AnalysisError, Model
 from ..report import Ctx, where
@@ -47,19 +48,34 @@ def em_norm(ctx: Ctx):
                "a segment is appended to the resolved path without being known to differ from '.' and '..'", where(fi, e.node), sample=why)
     # normalize_path: keeps the root, splits on '/', re-joins the resolver's output
     fp = model.func("_path.normalize_path")
-    rp = analyze(model, fp)
+    rp = analyze(model, fp, merge=False)        # small function: keep every path apart (rootedness is a two-test condition)
     ctx.functions.add(fp.qual)
+    path = ("param", fp.params[0])
+    rooted = ("cmp", "Eq", ("sub", path, ("const", 0)), ("const", "/"))
     for s, v, node in rp.returns:
         ctx.instance(rule)
-        calls = [t for t in walk(v) if t[0] == "call" and t[1][0] == "global" and t[1][2] == "normalize_path_segments"]
-        joined = v[0] == "binop" and v[1] == "Add" and v[3][0] == "call" and v[3][1] == ("attr", ("const", "/"), "join") and bool(calls)
-        split_ok = bool(calls) and calls[0][2] and calls[0][2][0][0] == "call" and calls[0][2][0][1][0] == "attr" and calls[0][2][0][1][2] == "split" \
-            and calls[0][2][0][2] == (("const", "/"),)
-        prefix = v[2] if v[0] == "binop" else None
-        pref_ok = prefix in (("const", ""), ("const", "/"))
-        if prefix == ("const", "/"):
-            pref_ok = truth(("cmp", "Eq", ("sub", ("param", "path"), ("const", 0)), ("const", "/")), s.facts) is True
-        ctx.ob(rule, fp.qual, f"return {show(v)[:70]}", joined and split_ok and pref_ok,
+        parts = flatten(v)          # any spelling of  [ "/" ] + "/".join(resolver(<text>.split("/")))
+        prefix = ""
+        if parts and parts[0][0] == "lit":
+            prefix, parts = parts[0][1], parts[1:]
+        body = parts[0][1] if len(parts) == 1 and parts[0][0] == "val" else None
+        text = None
+        if body is not None and body[0] == "call" and body[1] == ("attr", ("const", "/"), "join") and len(body[2]) == 1:
+            c = body[2][0]
+            if c[0] == "call" and c[1][0] == "global" and c[1][2] == "normalize_path_segments" and len(c[2]) == 1:
+                sp = c[2][0]
+                if sp[0] == "call" and sp[1][0] == "attr" and sp[1][2] == "split" and sp[2] == (("const", "/"),):
+                    text = sp[1][1]
+        if text is None:
+            ok = False
+        elif prefix == "/":
+            # the root is kept for a rooted path and the resolver sees the text after it
+            ok = text == ("sub", path, ("slice", ("const", 1), ("const", None), ("const", None))) and truth(rooted, s.facts) is True
+        elif prefix == "":
+            ok = text == path and all(truth(path, f) is False or truth(rooted, f) is False for f in alternatives(s.facts, [path]))
+        else:
+            ok = False
+        ctx.ob(rule, fp.qual, f"return {show(v)[:70]}", ok,
                "normalize_path must return root-prefix + '/'.join(resolver(path.split('/'))) with the root kept only for rooted paths",
                where(fp, node), sample="prefix + '/'.join(normalize_path_segments(path.split('/')))")
 
@@ -157,16 +173,34 @@ def flag_accumulates(ctx: Ctx):
         r = analyze(model, fi)
         for (lid, name), srcs in r.phis.items():
             phi = ("phi", lid, name)
-            dot_srcs = [t for t in srcs if any(x[0] == "cmp" and x[1] == "In" and x[2] == ("const", ".") for x in walk(t))]
+
+            def is_dot(k):
+                return k[0] == "cmp" and k[1] == "In" and k[2] == ("const", ".")
+            # the flag records dot detection: a source computed from `'.' in x`, or the constant True stored under it
+            dot_srcs = [t for t in srcs if any(is_dot(x) for x in walk(t))]
+            dot_srcs += [t for t in srcs if t[0] == "const" and t[1] in (True, 1) and
+                         any(fv is True and is_dot(k) for f in r.phi_facts.get((lid, name, t), ()) for k, fv in f.items())]
             if not dot_srcs:
                 continue
             n += 1
             ctx.instance(rule)
-            ok = all(any(x == phi for x in walk(t)) and t[0] == "binop" and t[1] in ("BitOr", "Or", "Add") or
-                     (t[0] == "binop" and t[1] == "BitOr" and any(x == phi for x in walk(t))) for t in dot_srcs)
-            # also accepted: `flag = flag or c` (the short-circuit leaves the phi as one source and c as the other under `not flag`)
-            ctx.ob(rule, q, f"{name} <- " + " | ".join(sorted(show(t)[:50] for t in dot_srcs)), ok,
-                   f"the flag `{name}` is overwritten in the loop instead of accumulated: only one argument's dots are seen",
+            # monotone over the iterations: every value the flag has at the end of an iteration is the old flag, the old
+            # flag or-ed with something, a true constant, or anything at all when the old flag was false anyway
+            bad = []
+            for st in r.backedges.get(lid, ()):
+                t = st.env.get(name)
+                if t is None or t == phi:
+                    continue
+                if t[0] == "const" and bool(t[1]):
+                    continue
+                if t[0] == "binop" and t[1] in ("BitOr", "Or") and phi in (t[2], t[3]):
+                    continue
+                if truth(phi, st.facts) is False:
+                    continue
+                bad.append(t)
+            ctx.ob(rule, q, f"{name} <- " + " | ".join(sorted({show(t)[:50] for t in dot_srcs})), not bad,
+                   f"the flag `{name}` is overwritten in the loop instead of accumulated ({'; '.join(sorted({show(t)[:60] for t in bad}))}): "
+                   f"only one argument's dots are seen",
                    where(fi, r.loops[lid]), sample="flag |= ('.' in segment)")
     if not n:
         raise AnalysisError("FLAG-ACC: no loop-carried dot-detection flag found (anchor vanished)")
